@@ -610,6 +610,9 @@ func checkRequirerLaw(out *sim.Outcome, sc *C04Scenario, full, restr []*ViewObs,
 					if _, kept := r.Walk[t]; !kept && tn.Type == "d" && i == last && depth(t) >= 2 && !hasKid(t) {
 						continue // a link to a directory that was pruned when it became empty (reported from the walk)
 					}
+					if _, kept := r.Walk[t]; !kept && orphanBelow(f, explained[i], t) {
+						continue // a link to an entry lost together with its lookup-only child (reported from the walk)
+					}
 				}
 			}
 			if ownType(p) == "d" && i == last && depth(p) >= 2 && !hasKid(p) {
